@@ -109,7 +109,7 @@ From PyccoloV Require Import model.Ctx.
 Definition view (r : site_result) : list nat * nat :=
   match r with
   | SDelivered who => (map fst (filter snd (combine (seq 0 (length who)) who)), 0)
-  | SPlain => ([], 1) | SNameErrorFallback => ([], 2) | SNameError => ([], 3) end.
+  | SPlain => ([], 1) | SNameErrorFallback => ([], 2) | SNameError => ([], 3) | SFinders n => ([n], 4) end.
 Definition snap (s : cst) :=
   (stack s, map (fun t => (enabled (tsts s t), hard (tsts s t))) (seq 0 (ntr s)), (emit_present s, guards_live s),
    (te s, fte s), (thunk_owner s, lam_owner s), cur_trace s, settrace_patches s, meta_finders s).
@@ -173,9 +173,9 @@ def model_results(cases):
             raise RuntimeError("coqc failed on generated cases (rc=%s, %d/%d results)\n%s" % (rc, len(vals), len(cs), out[-3000:]))
         for v in vals:
             r, mid, after, lg, post = lib.parse_coq_list(v)
-            # the model logs two entries per executed site: the site's own result, then the system-trace deliveries
-            res.append({"raised": r, "mid": snap_view(mid), "after": snap_view(after), "log": [site_view(x) for x in lg[0::2]],
-                        "syslog": [sorted(x[0]) for x in lg[1::2]], "post": [site_view(x) for x in post]})
+            # the model logs three entries per executed site: the site's own result, the system-trace deliveries, the finders on sys.meta_path
+            res.append({"raised": r, "mid": snap_view(mid), "after": snap_view(after), "log": [site_view(x) for x in lg[0::3]],
+                        "syslog": [sorted(x[0]) for x in lg[1::3]], "finders": [x[0][0] for x in lg[2::3]], "post": [site_view(x) for x in post]})
     return res
 
 
@@ -208,6 +208,9 @@ def compare(case, m, im):
     isys = [e[3] for e in im["log"]]
     if m["syslog"] != isys:
         return {"detail": "system-trace 'call' deliveries per site: model %r impl %r" % (m["syslog"], isys)}
+    ifind = [e[4] for e in im["log"]]
+    if m["finders"] != ifind:
+        return {"detail": "pyccolo finders on sys.meta_path at each site: model %r impl %r" % (m["finders"], ifind)}
     ipost = [e[1] for e in im["post"]]
     if m["post"] != ipost:
         return {"detail": "post-run sites: model %r impl %r" % (m["post"], ipost)}
